@@ -729,7 +729,7 @@ func (c *fnCtx) table(id *ast.Ident, v *types.Var) string {
 	coqNames[name] = true
 	tables[v] = name
 	var b strings.Builder
-	fmt.Fprintf(&b, "(* %s/%s: var %s *)\n", c.p.dir, shortFile(fset.Position(lit.Pos()).Filename), v.Name())
+	fmt.Fprintf(&b, "(* %s *)\n", coqComment(c.p.dir+"/"+shortFile(fset.Position(lit.Pos()).Filename)+": var "+v.Name()))
 	fmt.Fprintf(&b, "Definition %s : list Z :=\n  [", name)
 	for i, x := range xs {
 		if i > 0 {
